@@ -11,6 +11,11 @@
 //   vector   std::vector<int> / VecSrc / OtherX        heap-owning
 //   over     Over (alignas(32)) / int / OtherX         over-aligned
 //   tracked  Tracked<int,0> / Tracked<int,1> / Tracked<int,2>   lifetime-instrumented
+//
+// Throwing payload operations (tracked variant only): a Tracked object can be "poisoned"; every
+// construction or assignment that takes its value FROM a poisoned object throws PayloadThrow before it
+// has any effect (a constructor that throws does not register an object).  Actions with "t":true hand
+// their value over in a poisoned temporary; Poison / AnyPoison poison the payload a wrapper holds.
 #pragma once
 #include <cmath>
 #include <cstdint>
@@ -104,43 +109,81 @@ struct Quiet
 // ---------------------------------------------------------------------------
 // Payload types
 // ---------------------------------------------------------------------------
+template <typename P>
+struct PV;
+
+struct PayloadThrow : std::runtime_error
+{
+  PayloadThrow() : std::runtime_error("payload operation throws") {}
+};
+
 template <typename B, int TAG>
 struct Tracked
 {
   B val;
+  bool poison = false; // taking the value from this object throws
   Tracked() : val() { reg().on("ctor", this); }
   Tracked(const B &b) : val(b) { reg().on("ctor", this); }
   Tracked(const Tracked &o) : val(o.val)
   {
     reg().on("read", &o);
+    if (o.poison) throw PayloadThrow(); // no object comes into existence
     reg().on("ctor", this);
   }
-  Tracked(Tracked &&o) : val(std::move(o.val))
+  Tracked(Tracked &&o) : val(o.val)
   {
     reg().on("read", &o);
+    if (o.poison) throw PayloadThrow();
     reg().on("ctor", this);
   }
   template <int T2>
   Tracked(const Tracked<B, T2> &o) : val(o.val) // implicit conversion between tags
   {
     reg().on("read", &o);
+    if (o.poison) throw PayloadThrow();
     reg().on("ctor", this);
   }
   Tracked &operator=(const Tracked &o)
   {
     reg().on("read", &o);
+    if (o.poison) throw PayloadThrow(); // before any effect on *this
     reg().on("assign", this);
     val = o.val;
+    poison = false;
     return *this;
   }
   Tracked &operator=(Tracked &&o)
   {
     reg().on("read", &o);
+    if (o.poison) throw PayloadThrow();
     reg().on("assign", this);
-    val = std::move(o.val);
+    val = o.val;
+    poison = false;
     return *this;
   }
   ~Tracked() { reg().on("dtor", this); }
+};
+
+// poisoning a payload: only the instrumented payload can throw
+template <typename P>
+struct Poisoner
+{
+  static void set(P &) { throw std::logic_error("driver: this payload type cannot be poisoned"); }
+};
+template <typename B, int TAG>
+struct Poisoner<Tracked<B, TAG>>
+{
+  static void set(Tracked<B, TAG> &x) { x.poison = true; }
+};
+// the value of an action: a temporary holding model value v, poisoned if the action says so
+template <typename P>
+struct Arg
+{
+  P x;
+  Arg(long v, bool throws) : x(PV<P>::make(v))
+  {
+    if (throws) Poisoner<P>::set(x);
+  }
 };
 
 #define VB_TRACKED_CMP(OP)                                                 \
@@ -284,6 +327,7 @@ template <int TAG> struct PV<Tracked<int, TAG>>
 struct IWorld
 {
   virtual ~IWorld() {}
+  virtual void setEmitEvents(bool) {}
   virtual Json step(const Json &act) = 0;
 };
 
@@ -296,6 +340,7 @@ struct World : IWorld
   std::vector<void *> mem;
   std::vector<size_t> msize;
   std::vector<char> constructed;
+  bool emitEvents = false; // the per-step lifetime event list is only needed when an execution is recorded for TLC
 
   char kind(int w) const { return w <= nt ? 'T' : (w <= nt + nu ? 'U' : 'A'); }
   OT *ot(int w) { return reinterpret_cast<OT *>(mem[(size_t)w]); }
@@ -318,6 +363,7 @@ struct World : IWorld
       if (kind(w) != 'A') reg().slots.push_back(std::make_pair((uintptr_t)p, (uintptr_t)p + sz));
     }
   }
+  void setEmitEvents(bool e) override { emitEvents = e; }
   ~World() override
   {
     // wrappers are destroyed by the Teardown action of the history, not here: a corrupted wrapper
@@ -344,7 +390,12 @@ struct World : IWorld
       o.set("has", has);
       o.set("v", has ? PV<P>::back(p->value()) : 0L);
     }
-    if (TRACKED) o.set("live", reg().liveIn(w));
+    if (TRACKED) {
+      long live = reg().liveIn(w);
+      o.set("live", live);
+      // has_value() minus live payload objects in the wrapper's storage
+      if (constructed[(size_t)w]) o.set("hl", (long)(o["has"].boolean() ? 1 : 0) - live);
+    }
     return o;
   }
   Json obsAny(int w)
@@ -378,12 +429,20 @@ struct World : IWorld
     int d = (int)arg["d"].num();
     OP *p = reinterpret_cast<OP *>(mem[(size_t)d]);
     long v = arg.has("v") ? (long)arg["v"].num() : 0;
+    bool t = arg.has("t") && arg["t"].boolean();
     if (a == "DefaultCtor") {
       new (p) OP; // default-initialisation, as in `Optional<T> o;` (the slot bytes stay 0xCD where the class does not set them)
       constructed[(size_t)d] = 1;
     } else if (a == "ValueCtor") {
-      new (p) OP(PV<P>::make(v));
+      Arg<P> x(v, t);
+      new (p) OP(x.x);
       constructed[(size_t)d] = 1;
+    } else if (a == "MakeOptional") {
+      Arg<P> x(v, t);
+      new (p) OP(rkcommon::utility::make_optional<P>(x.x));
+      constructed[(size_t)d] = 1;
+    } else if (a == "Poison") {
+      Poisoner<P>::set(p->value());
     } else if (a == "CopyCtor") {
       const OP &src = *reinterpret_cast<OP *>(mem[(size_t)arg["s"].num()]);
       new (p) OP(src);
@@ -393,7 +452,12 @@ struct World : IWorld
       new (p) OP(std::move(src));
       constructed[(size_t)d] = 1;
     } else if (a == "AssignValue") {
-      *p = PV<P>::make(v);
+      if (t) {
+        Arg<P> x(v, true);
+        *p = x.x;
+      } else {
+        *p = PV<P>::make(v);
+      }
     } else if (a == "CopyAssign") {
       const OP &src = *reinterpret_cast<OP *>(mem[(size_t)arg["s"].num()]);
       *p = src;
@@ -401,9 +465,14 @@ struct World : IWorld
       OP &src = *reinterpret_cast<OP *>(mem[(size_t)arg["s"].num()]);
       *p = std::move(src);
     } else if (a == "Emplace") {
-      P &r = p->emplace(PV<P>::make(v));
-      Quiet q;
-      o.set("ret", PV<P>::back(r));
+      if (t) {
+        Arg<P> x(v, true);
+        p->emplace(x.x);
+      } else {
+        P &r = p->emplace(PV<P>::make(v));
+        Quiet q;
+        o.set("ret", PV<P>::back(r));
+      }
     } else if (a == "ResetValue") {
       p->reset();
     } else if (a == "Destroy") {
@@ -546,13 +615,22 @@ struct World : IWorld
     Any *p = d ? any(d) : nullptr;
     long v = arg.has("v") ? (long)arg["v"].num() : 0;
     bool isT = arg.has("ty") && arg["ty"].str() == "T";
+    bool t = arg.has("t") && arg["t"].boolean();
     if (a == "AnyDefaultCtor") {
       new (p) Any;
       constructed[(size_t)d] = 1;
     } else if (a == "AnyValueCtor") {
-      if (isT) new (p) Any(PV<T>::make(v));
-      else new (p) Any(PV<X>::make(v));
+      if (isT) {
+        Arg<T> x(v, t);
+        new (p) Any(x.x);
+      } else {
+        Arg<X> x(v, t);
+        new (p) Any(x.x);
+      }
       constructed[(size_t)d] = 1;
+    } else if (a == "AnyPoison") {
+      if (p->template is<T>()) Poisoner<T>::set(p->template get<T>());
+      else Poisoner<X>::set(p->template get<X>());
     } else if (a == "AnyCopyCtor") {
       const Any &src = *any((int)arg["s"].num());
       new (p) Any(src);
@@ -562,8 +640,13 @@ struct World : IWorld
       new (p) Any(std::move(src));
       constructed[(size_t)d] = 1;
     } else if (a == "AnyAssignValue") {
-      if (isT) *p = PV<T>::make(v);
-      else *p = PV<X>::make(v);
+      if (isT) {
+        Arg<T> x(v, t);
+        *p = x.x;
+      } else {
+        Arg<X> x(v, t);
+        *p = x.x;
+      }
     } else if (a == "AnyCopyAssign") {
       const Any &src = *any((int)arg["s"].num());
       *p = src;
@@ -676,7 +759,7 @@ struct World : IWorld
         life.set("outside", outside);
         life.set("total", (long)reg().live.size());
         o.set("life", life);
-        o.set("ev", ev);
+        if (emitEvents) o.set("ev", ev);
       }
     }
     return o;
